@@ -149,8 +149,12 @@ where
         self.cap = new_sz;
         let old = mem::replace(&mut self.tbl, vec![HashTableElement::default(); new_sz]);
         let c = self.cap;
-        for i in old.iter() {
-            propagate(&mut self.tbl, self.cap, i.clone(), (i.hash as usize) % c);
+        for i in old.iter().filter(|i| i.is_occupied()) {
+            // re-insert only live entries, starting at their home slot with a
+            // fresh probe length
+            let mut itm = i.clone();
+            itm.psl = 0;
+            propagate(&mut self.tbl, self.cap, itm, (i.hash as usize) % c);
         }
     }
 
